@@ -989,7 +989,6 @@ func (t *Tree) Compile(file string, args []string, out io.Writer) (err error) {
 			t.warn(fmt.Errorf("illegal node type: %v", n.GetType()))
 		}
 	}
-	dryCompile := true
 
 	compile = func(n *node, ko uint) (labelLast bool) {
 		switch n.GetType() {
@@ -1128,11 +1127,9 @@ func (t *Tree) Compile(file string, args []string, out io.Writer) (err error) {
 					_print(" '%s'", escape(character.String()))
 				}
 				_print(":")
-				if !dryCompile {
-					sequence.SetParentDetect(true)
-					if class.Len() > 1 {
-						sequence.SetParentMultipleKey(true)
-					}
+				sequence.SetParentDetect(true)
+				if class.Len() > 1 {
+					sequence.SetParentMultipleKey(true)
 				}
 				if compile(sequence, done) {
 					_print("\nbreak")
@@ -1256,7 +1253,6 @@ func (t *Tree) Compile(file string, args []string, out io.Writer) (err error) {
 	}
 	_print = printTemp
 	label = 0
-	dryCompile = false
 
 	/* now for the real compile pass */
 	t.PegRuleType = "uint8"
